@@ -17,6 +17,7 @@ package influxql
 import (
 	"errors"
 	"fmt"
+	"math"
 	"strconv"
 	"strings"
 	"time"
@@ -98,7 +99,14 @@ func (p *YyParser) Lex(lval *yySymType) int {
 			}
 		case INTEGER:
 			{
-				lval.int64, _ = strconv.ParseInt(val, 10, 64)
+				var err error
+				if lval.int64, err = strconv.ParseInt(val, 10, 64); err != nil {
+					// Above MaxInt64 an expression takes the text (lval.str) as an unsigned
+					// literal, see integerLiteral; what no uint64 holds is no integer at all.
+					if _, err = strconv.ParseUint(val, 10, 64); err != nil {
+						p.Error("unable to parse integer")
+					}
+				}
 			}
 		case DURATIONVAL:
 			{
@@ -178,6 +186,26 @@ func (p *YyParser) Lex(lval *yySymType) int {
 	lval.str = val
 	return int(typ)
 }
+
+// integerLiteral returns the literal of an INTEGER token in an expression. A text that is too
+// large for an int64 is an unsigned literal, as in Parser.parseUnaryExpr.
+func integerLiteral(v int64, text string) Expr {
+	if u, err := strconv.ParseUint(text, 10, 64); err == nil && u > math.MaxInt64 {
+		return &UnsignedLiteral{Val: u}
+	}
+	return &IntegerLiteral{Val: v}
+}
+
+// negateUnsignedLiteral returns the literal of a minus sign in front of an unsigned literal:
+// only math.MinInt64, whose magnitude does not fit into an int64, can be written that way.
+func negateUnsignedLiteral(yylex yyLexer, lit *UnsignedLiteral) Expr {
+	if lit.Val == uint64(math.MaxInt64)+1 {
+		return &IntegerLiteral{Val: math.MinInt64}
+	}
+	yylex.Error(fmt.Sprintf("constant -%d underflows int64", lit.Val))
+	return lit
+}
+
 func (p *YyParser) Error(err string) {
 	p.error = YyParserError(err)
 }
